@@ -30,7 +30,7 @@ Request ==
        ELSE Ev.ran = <<>> /\ (Ev.ns = "call" => Ev.code = 404)
   /\ UNCHANGED <<table, unknown>> /\ Step
 \* two registrations that map to one name make the registration fail (the process exits), never a silent share
-Conflict == Is("Conflict") /\ (IF Ev.pair = "none" THEN Ev.exit = 0 ELSE Ev.exit # 0) /\ UNCHANGED <<table, unknown>> /\ Step
+Conflict == Is("Conflict") /\ (IF Ev.expectconflict THEN Ev.exit # 0 ELSE Ev.exit = 0) /\ UNCHANGED <<table, unknown>> /\ Step
 Known == {"Reset", "MapCase", "Registered", "Request", "Conflict"}
 Skip == l <= N /\ Ev.ev \notin Known /\ UNCHANGED <<table, unknown>> /\ Step
 Next == Reset \/ MapCase \/ Registered \/ Request \/ Conflict \/ Skip
